@@ -174,6 +174,8 @@ impl Write for WFile {
         self.f.write(b)
     }
     fn flush(&mut self) -> io::Result<()> {
+        // a failing flush reports an error for data that has already reached the file
+        self.ctl.tick("flush", || self.name.clone())?;
         self.f.flush()
     }
 }
